@@ -2,6 +2,7 @@
 package zsel
 
 import (
+	"runtime"
 	"errors"
 	"sync"
 	"sync/atomic"
@@ -124,4 +125,32 @@ func Named(v int) int {
 	ch := make(eventCh, 1)
 	go func() { ch <- v + 1 }()
 	return <-ch
+}
+
+// Res is a resource with a finalizer.
+type Res struct {
+	mu     sync.Mutex
+	closed bool
+}
+
+// NewRes creates a resource that is closed when it is collected.
+func NewRes() *Res {
+	r := &Res{}
+	runtime.SetFinalizer(r, (*Res).Close)
+	return r
+}
+
+// Close closes the resource.
+func (r *Res) Close() {
+	r.mu.Lock()
+	r.closed = true
+	r.mu.Unlock()
+}
+
+// Closed reports whether the resource was closed.
+func (r *Res) Closed() bool {
+	runtime.Gosched()
+	r.mu.Lock()
+	defer r.mu.Unlock()
+	return r.closed
 }
